@@ -25,7 +25,6 @@ Lemma (paper): when R is a function of the context (C29/C30) the five texts are 
 from __future__ import annotations
 
 import functools
-import io
 import itertools
 import os
 import tempfile
@@ -35,10 +34,10 @@ import z3
 
 from pyvc.contract import VC, Res, FnTask
 from pyvc.values import (
-    State, Sym, Ref, HObj, HList, HDict, HIter, SSeq, Obj, Exc, Event, BoundMethod,
-    fresh, fresh_name, sym, sel, fresh_arr, Unsupported,
+    Sym, Ref, HObj, HList, HDict, HIter, SSeq, Obj, Exc, Event, BoundMethod,
+    fresh, fresh_name, sym, Unsupported,
 )
-from pyvc.smt import to_term, model_value, host_const
+from pyvc.smt import to_term, host_const
 from pyvc.stmts import LoopSpec
 from pyvc.interp import Raised, seq
 from pyvc import abstract as A
@@ -47,7 +46,6 @@ from pyvc import models
 import jinja2
 import jinja2.environment as E
 import jinja2.utils as U
-from jinja2.runtime import Context
 
 I_ = z3.IntSort()
 S_ = z3.StringSort()
